@@ -105,8 +105,17 @@ def events(h):
         elif e[0] == "s" and not inpre and e[2]:
             e = ("s", e[1], tuple((k, _nl(v) if isinstance(v, str) else v) for k, v in e[2]))
         elif e[0] in ("c", "d", "pi", "ud") and not inpre:
-            e = (e[0], _nl(e[1]))
+            # raw comment / declaration / processing instruction: blank lines and a trailing line end
+            # inside it are insignificant
+            e = (e[0], re.sub(r"\n+", "\n", _nl(e[1])).strip("\n"))
         out.append(e)
+    # a line ending at the very end of the document is insignificant even inside a never-closed <pre>
+    if out and out[-1][0] == "t":
+        d = out[-1][1].rstrip("\n")
+        if d:
+            out[-1] = ("t", d)
+        else:
+            out.pop()
     return out
 
 
@@ -218,6 +227,22 @@ def _txt_class(x, y):
     return "other"
 
 
+_CONT = {"blockquote", "ul", "ol", "li"}
+_LEAF = {"p", "pre", "h1", "h2", "h3", "h4", "h5", "h6"}
+
+
+def _ctx(path):
+    """Coarse context of the first divergence: document / container / leaf block kind / inline."""
+    if not path:
+        return "doc"
+    t = path[-1]
+    if t in _CONT:
+        return t
+    if t in _LEAF:
+        return "h" if t[0] == "h" and len(t) == 2 else t
+    return "inline"
+
+
 def _desc(e):
     if e is None:
         return "END"
@@ -257,7 +282,7 @@ def compare(src, pm_html):
         return "abstain", "markdown-it-punycode-hosts"
     fd = first_div(a, b)
     path, x, y = fd
-    sig = "/".join(path[-3:]) + "|" + _desc(x) + "|" + _desc(y)
+    sig = _ctx(path) + "|" + _desc(x) + "|" + _desc(y)
     if x is not None and y is not None and x[0] == "t" and y[0] == "t":
         sig += "|" + _txt_class(x[1], y[1])
     elif x is not None and y is not None and x[0] == "s" and y[0] == "s" and x[1] == y[1]:
